@@ -114,6 +114,26 @@ class Trace:
                 pre_dead_pending.setdefault(int(t[1]), []).append(int(t[3]))
             if t[0] == "cop" and t[2] == "ev":
                 pending_cops.setdefault(int(t[1]), []).append(t[3:])
+            if cfg.get("auth") == "proto":
+                for l in block:
+                    f = l.split()
+                    if f[0] == "authorized":
+                        c_ = int(f[1])
+                        if cfg.get("mismatch") == f[1]:
+                            self.add("C07", i, "client %d has a different protocol hash but was authorized" % c_)
+                            self.add("C14", i, "client %d has a different protocol hash but was authorized" % c_)
+                        if c_ in connected and c_ not in authorized:
+                            authorized.add(c_)
+                            auth_tick_pending.add(c_)
+                    if f[0] == "disconnect-request" and f[1] != cfg.get("mismatch") and f[1] != "?":
+                        self.add("C07", i, "a disconnect was requested for client %s whose protocol matches" % f[1])
+                    if f[0] == "evt" and len(f) > 2 and f[2] == "PMISMATCH" and f[1] != cfg.get("mismatch"):
+                        self.add("C07", i, "client %s was told its protocol mismatches although it matches" % f[1])
+                if t[0] == "sframe" and cfg.get("mismatch") is not None:
+                    got_mm = any(l == "evt %s PMISMATCH" % cfg["mismatch"] for l in block)
+                    got_dr = any(l == "disconnect-request %s" % cfg["mismatch"] for l in block)
+                    if got_mm != got_dr:
+                        self.add("C07", i, "mismatch notification and disconnect request do not come together (notification %s, request %s)" % (got_mm, got_dr))
             if t[0] == "cfg":
                 cfg = dict(kv.split("=") for kv in t[1:])
                 pending_sops, spec_marked, spec_vis = [], {}, {}
@@ -239,6 +259,8 @@ class Trace:
                                     self.add("C08", i, "entity %d is hidden from client %d (most recent setting) but the server treats it as visible" % (e, c))
                 for l in block:
                     f = l.split()
+                    if f[0] == "evt" and f[2] == "PMISMATCH":
+                        continue
                     if f[0] == "evt":
                         c, ty, sq = int(f[1]), f[2], int(f[4].split(":")[0])
                         tk = f[3][2:]
